@@ -108,6 +108,13 @@ func (fr *frame) call(v ssa.Value, c *ssa.CallCommon, st *State, site ssa.Instru
 	}
 	anchor := fr.callAnchor(anchorName(key, c), site)
 	fr.checkAsserts("call "+anchor, st)
+	if rc := fr.root().contract; rc != nil {
+		for _, fb := range rc.Forbid {
+			if fb == anchorName(key, c) {
+				fr.oblige("assert", "", "forbidden:"+anchor, st, "false", "call to "+fb+" is forbidden here by the contract", nil)
+			}
+		}
+	}
 
 	// nil receiver check for invoke
 	if c.IsInvoke() {
@@ -379,6 +386,11 @@ func (fr *frame) applyContract(ct *Contract, callee *ssa.Function, sig *types.Si
 		g, err := post.trBool(cl.Expr)
 		if err != nil {
 			vc.warn("contract %s ensures %q: %v", ct.Key, cl.Text, err)
+			continue
+		}
+		if g == "false" {
+			// the callee does not return (os.Exit, panic helpers)
+			st.reach = "false"
 			continue
 		}
 		fr.assume(st, g)
@@ -773,6 +785,12 @@ func (fr *frame) frameGhostAt(key, idx string, st *State) {
 		return
 	}
 	var alts []string
+	// state attached to an object allocated during this call is not part of the frame
+	if k := fr.vc().kinds[key]; k != nil && k.Idx == SInt {
+		alts = append(alts, fmt.Sprintf("(>= (rootref %s) hw!0)", idx))
+	} else {
+		alts = append(alts, fmt.Sprintf("(>= (vref %s) hw!0)", idx))
+	}
 	for _, d := range e.declMods {
 		if d.key != key && d.key != "*" {
 			continue
